@@ -399,6 +399,12 @@ def run(ctx: Ctx) -> None:
 
 def replay(ctx: Ctx, path: str) -> None:
     data = json.load(open(path))["replay"]
+    if "plus_probe" in data:
+        # the probe is a function of its random stream only: the stream of this seed is run again in full
+        prng = random.Random(f"C02-plus-{ctx.seed}")
+        for _ in range(ctx.n(60, 600)):
+            plus_probe(ctx, prng)
+        return
     probs = run_case(ctx, data["program"], data["observe"])
     ctx.case("replay", True, sample=data["program"])
     for p in probs:
